@@ -44,12 +44,17 @@ MaskTf(Mm, tv) ==
                     [] F.kind = "objmap" /\ x.k = "map" -> [x EXCEPT !.mels = [key \in DOMAIN x.mels |-> MaskTf(SubOf(F), x.mels[key])]]
                     [] OTHER -> x]]
 
-Report(viol, drift, what) ==
+\* one record per judged line: which properties had their antecedent satisfied here (evald), which
+\* clause instances failed on the REAL state (viol), whether the real post-state differs from the model
+ReportE(viol, drift, what, evald) ==
   /\ TLCSet(2, l)
   /\ TLCSet(3, TLCGet(3) + 1)
-  /\ IF viol # {} \/ drift
-     THEN PrintT(ToJson([l |-> l, id |-> bid, ev |-> Line.ev, viol |-> viol, drift |-> drift, what |-> what]))
+  /\ IF viol # {} \/ drift \/ evald # {}
+     THEN PrintT(ToJson([l |-> l, id |-> IF Line.ev = "Reset" THEN Line.id ELSE bid, ev |-> Line.ev, viol |-> viol,
+                         drift |-> drift, what |-> what, evald |-> evald]))
      ELSE TRUE
+
+Report(viol, drift, what) == ReportE(viol, drift, what, {})
 
 Wants(p) == \E i \in DOMAIN ev : ev[i] = p
 
@@ -119,7 +124,7 @@ TraceCopyTo ==
                   \/ (~pn /\ (MaskTf(M, Line.tf) # MaskTf(M, impl.tf) \/ DgSet(Line.diags) # DgSet(impl.dg)))
                   \/ Line.obj # obj
      IN /\ rt' = IF fromEmpty /\ ~pn THEN [armed |-> TRUE, orig |-> obj] ELSE NoRT
-        /\ Report(viol, drift, "CopyTo")
+        /\ ReportE(viol, drift, "CopyTo", {p \in {"C03", "C20", "C07"} : fromEmpty /\ Wants(p)})
 
 TraceCopyFrom ==
   /\ IsEvent("CopyFrom") /\ ok
@@ -130,15 +135,15 @@ TraceCopyFrom ==
          impl == FromMsg(M, tf, obj)
          fresh == obj = M.zero
          rtctx == [M |-> M, orig |-> rt.orig, back |-> Line.obj]
-         noexcl == Line.meta = Line.meta  \* placeholder, exclusions are checked through ev
          viol == (IF rt.armed /\ fresh /\ ~pn /\ Wants("C04") THEN C04(rtctx) ELSE {})
             \cup (IF rt.armed /\ fresh /\ ~pn /\ Wants("C19") THEN C19(rtctx) ELSE {})
-            \cup (IF rt.armed /\ fresh /\ pn /\ (Wants("C04") \/ Wants("C19")) THEN {VG("C04.roundtrip", M.path)} ELSE {})
+            \cup (IF rt.armed /\ fresh /\ pn /\ (Wants("C04") \/ Wants("C19")) THEN {[c |-> "C04.roundtrip", p |-> M.path, sig |-> PanicSig(M, obj)]} ELSE {})
             \cup (IF Wants("C07") /\ ~pn /\ Conforms(tf, tt) THEN C07From(M, tf, Line.obj) ELSE {})
          drift == \/ pn # impl.pn
                   \/ (~pn /\ (MaskCustomGo(M, 1, Line.obj) # MaskCustomGo(M, 1, impl.obj) \/ DgSet(Line.diags) # DgSet(impl.dg)))
                   \/ Line.tf # tf
-     IN Report(viol, drift, "CopyFrom")
+     IN ReportE(viol, drift, "CopyFrom",
+                {p \in {"C04", "C19"} : rt.armed /\ fresh /\ Wants(p)} \cup {p \in {"C07"} : Wants(p) /\ ~pn /\ Conforms(tf, tt)})
 
 \* a behaviour whose root type was not generated / did not compile: its lines are skipped
 TraceSkip ==
